@@ -2,6 +2,7 @@
 // They are analysed on every run next to the library (never linked, never part of the library): a rule that
 // stops reporting the `bad_*` function or starts reporting the `good_*` one is broken and says so (exit 2).
 #include <algorithm>
+#include <list>
 #include <vector>
 
 namespace BaseGraph {
@@ -32,6 +33,27 @@ inline long long good_signed_arith(unsigned a, unsigned b) {
     return static_cast<long long>(a) - static_cast<long long>(b);
 }
 
+// F-CURSOR ---------------------------------------------------------------------------------------------------
+inline unsigned bad_cursor(const std::list<unsigned> &values) {
+    unsigned n = 0;
+    auto it = values.begin();
+    while (it != values.end()) {
+        if (*it == 0)
+            --it;               // steps back: from begin() this is undefined
+        else
+            ++it;
+        ++n;
+    }
+    return n;
+}
+
+inline unsigned good_cursor(const std::list<unsigned> &values) {
+    unsigned n = 0;
+    for (auto it = values.begin(); it != values.end(); ++it)
+        n += *it;
+    return n;
+}
+
 } // namespace fixture
 } // namespace BaseGraph
 
@@ -41,4 +63,7 @@ void bgcheck_fixture_use() {
     (void)BaseGraph::fixture::good_sorted_search(v, 2);
     (void)BaseGraph::fixture::bad_signed_arith(1u, 2u);
     (void)BaseGraph::fixture::good_signed_arith(1u, 2u);
+    std::list<unsigned> l{1, 2};
+    (void)BaseGraph::fixture::bad_cursor(l);
+    (void)BaseGraph::fixture::good_cursor(l);
 }
